@@ -41,7 +41,7 @@ pub fn small_exhaustive(ctx: &Ctx, rep: &mut Report) {
     if ctx.thorough() {
         // sampled strings of length 4..6, n <= 5; biased towards few one-bits so that long
         // unary runs and exact fits are common
-        let per = ctx.sz(0, 6_000_000);
+        let per = ctx.sz(0, 40_000_000);
         let r = par_for(16, ncpu(), |w, rep| {
             let mut rng = rng_for(ctx.seed, &format!("c07-len4-6-{}", w));
             for _ in 0..per {
@@ -100,7 +100,7 @@ pub fn compress_sweep(ctx: &Ctx, rep: &mut Report) {
     });
     rep.merge(r);
     // production sizes: vectors engineered to need 8L + d bits
-    let reps = ctx.sz(6, 200);
+    let reps = ctx.sz(6, 2000);
     let r = par_for(2 * reps, ncpu(), |job, rep| {
         let (n, l) = if job % 2 == 0 { (512usize, 625usize) } else { (1024, 1239) };
         let mut rng = rng_for(ctx.seed, &format!("c07-prod-{}", job));
@@ -138,7 +138,7 @@ pub fn compress_sweep(ctx: &Ctx, rep: &mut Report) {
 
 /// decompress side at production sizes: the cursor sweep.
 pub fn cursor(ctx: &Ctx, rep: &mut Report) {
-    let rounds = ctx.sz(1, 12);
+    let rounds = ctx.sz(1, 40);
     let r = par_for(2 * rounds, ncpu(), |job, rep| {
         let (n, l) = if job % 2 == 0 { (512usize, 625usize) } else { (1024, 1239) };
         let mut rng = rng_for(ctx.seed, &format!("c07-cursor-{}", job));
